@@ -1,6 +1,7 @@
 package main
 
 import (
+	"github.com/peterstace/simplefeatures/geom"
 	"bytes"
 	"encoding/json"
 	"fmt"
@@ -160,4 +161,23 @@ func genValid(g interface{ Validate() error }) (ok bool) {
 		}
 	}()
 	return g.Validate() == nil
+}
+
+// snapLattice wraps the inverse of a general-position map: a result ordinate within 1e-6 of an integer is that integer
+// (control points of the lattice preimage come back from the float frame with an error of about 1e-13; results that
+// must be control points - hull vertices, boundary points - are then exact again, anything else stays a float).
+func snapLattice(inv func(geom.XY) geom.XY) func(geom.XY) geom.XY {
+	if inv == nil {
+		return nil
+	}
+	sn := func(v float64) float64 {
+		if r := math.Round(v); math.Abs(v-r) < 1e-6 {
+			return r
+		}
+		return v
+	}
+	return func(p geom.XY) geom.XY {
+		q := inv(p)
+		return geom.XY{X: sn(q.X), Y: sn(q.Y)}
+	}
 }
